@@ -323,4 +323,339 @@ Proof.
            apply spans_iff in E. lra.
 Qed.
 
+
+(** ** (2) tags and regions *)
+Lemma count_below_app es1 es2 p t :
+  count_below (es1 ++ es2) p t = (count_below es1 p t + count_below es2 p t)%nat.
+Proof. unfold count_below. rewrite filter_app, app_length. reflexivity. Qed.
+
+Lemma count_below_notag es p t :
+  (forall te, In te es -> fst te <> t) -> count_below es p t = 0%nat.
+Proof.
+  unfold count_below. induction es as [|a tl IH]; intro H; [reflexivity|].
+  cbn [filter]. rewrite (proj2 (Nat.eqb_neq _ _) (H a (or_introl eq_refl))). cbn [andb].
+  apply IH. intros te Hte. apply H. right; exact Hte.
+Qed.
+
+Lemma count_below_tag_same t E p : count_below (tag_edges t E) p t = crossings E p.
+Proof.
+  unfold count_below, crossings, tag_edges.
+  induction E as [|e tl IH]; [reflexivity|].
+  cbn [map filter fst snd]. rewrite Nat.eqb_refl. cbn [andb].
+  destruct (below e p); cbn [length]; congruence.
+Qed.
+
+Lemma tag_edges_tag t E te : In te (tag_edges t E) -> fst te = t.
+Proof.
+  unfold tag_edges. intro H. apply in_map_iff in H. destruct H as [e [<- _]]. reflexivity.
+Qed.
+
+Lemma count_below_tag_other t t' E p : t <> t' -> count_below (tag_edges t' E) p t = 0%nat.
+Proof.
+  intro H. apply count_below_notag. intros te Hte. apply tag_edges_tag in Hte. congruence.
+Qed.
+
+Lemma map_snd_tag_edges t E : map snd (tag_edges t E) = E.
+Proof.
+  unfold tag_edges. rewrite map_map. cbn [snd]. apply map_id.
+Qed.
+
+(** the tagged edges of the holes of a polygon *)
+Definition hole_edges (hts : list (nat * ring)) : list tedge :=
+  flat_map (fun th => tag_edges (fst th) (ring_edges (snd th))) hts.
+
+Lemma hole_edges_cons b h tl :
+  hole_edges (hole_tags b (h :: tl)) = tag_edges b (ring_edges h) ++ hole_edges (hole_tags (S b) tl).
+Proof. reflexivity. Qed.
+
+Lemma hole_edges_tags : forall hs b te,
+  In te (hole_edges (hole_tags b hs)) -> (b <= fst te < b + length hs)%nat.
+Proof.
+  induction hs as [|h tl IH]; intros b te Hin; [destruct Hin|].
+  rewrite hole_edges_cons in Hin. apply in_app_or in Hin. cbn [length].
+  destruct Hin as [Hin|Hin].
+  - apply tag_edges_tag in Hin. lia.
+  - apply IH in Hin. lia.
+Qed.
+
+Lemma hole_edges_snd : forall hs b, map snd (hole_edges (hole_tags b hs)) = flat_map ring_edges hs.
+Proof.
+  induction hs as [|h tl IH]; intro b; [reflexivity|].
+  rewrite hole_edges_cons, map_app, map_snd_tag_edges, IH. reflexivity.
+Qed.
+
+Lemma holes_spec : forall hs b es_total p,
+  (forall t, (b <= t < b + length hs)%nat ->
+             count_below es_total p t = count_below (hole_edges (hole_tags b hs)) p t) ->
+  forallb (fun th => negb (par es_total p (fst th))) (hole_tags b hs)
+  = forallb (fun h => negb (inside_ring h p)) hs.
+Proof.
+  induction hs as [|h tl IH]; intros b es_total p H; [reflexivity|].
+  cbn [hole_tags forallb fst]. cbn [length] in H. f_equal.
+  - f_equal. unfold par, inside_ring. f_equal. rewrite H by lia.
+    rewrite hole_edges_cons, count_below_app, count_below_tag_same, count_below_notag; [lia|].
+    intros te Hte. apply hole_edges_tags in Hte. lia.
+  - apply IH. intros t Ht. rewrite H by lia.
+    rewrite hole_edges_cons, count_below_app, count_below_tag_other by lia. reflexivity.
+Qed.
+
+Definition tags_in (es : list tedge) (lo hi : nat) : Prop :=
+  forall te, In te es -> (lo <= fst te < hi)%nat.
+
+(** [es_total] agrees with [es] on the tags of [lo, hi) *)
+Definition agree_on (es_total es : list tedge) (p : qpt) (lo hi : nat) : Prop :=
+  forall t, (lo <= t < hi)%nat -> count_below es_total p t = count_below es p t.
+
+Lemma layout_polygon_spec base P es m next :
+  layout_polygon base P = (es, m, next) ->
+  (base <= next)%nat /\ tags_in es base next /\
+  forall es_total p, agree_on es_total es p base next -> m (par es_total p) = inside_polygon P p.
+Proof.
+  unfold layout_polygon. intro H. inversion H as [[He Hm Hn]]. clear H He Hm Hn.
+  fold (hole_edges (hole_tags (S base) (q_holes P))).
+  split; [lia|]. split.
+  - intros te Hin. apply in_app_or in Hin. destruct Hin as [Hin|Hin].
+    + apply tag_edges_tag in Hin. lia.
+    + apply hole_edges_tags in Hin. lia.
+  - intros es_total p H. unfold inside_polygon. f_equal.
+    + unfold par, inside_ring. f_equal. rewrite H by lia.
+      rewrite count_below_app, count_below_tag_same, count_below_notag; [lia|].
+      intros te Hte. apply hole_edges_tags in Hte. lia.
+    + apply holes_spec. intros t Ht. rewrite H by lia.
+      rewrite count_below_app, count_below_tag_other by lia. reflexivity.
+Qed.
+
+Lemma layout_mpoly_spec : forall R base es m next,
+  layout_mpoly base R = (es, m, next) ->
+  (base <= next)%nat /\ tags_in es base next /\
+  forall es_total p, agree_on es_total es p base next -> m (par es_total p) = inside_mpoly R p.
+Proof.
+  induction R as [|P tl IH]; intros base es m next H.
+  - cbn [layout_mpoly] in H. inversion H. split; [lia|]. split.
+    + intros te Hin. destruct Hin.
+    + reflexivity.
+  - cbn [layout_mpoly] in H.
+    destruct (layout_polygon base P) as [[es1 m1] b1] eqn:E1.
+    destruct (layout_mpoly b1 tl) as [[es2 m2] b2] eqn:E2.
+    inversion H as [[He Hm Hn]]. clear H He Hm. subst b2.
+    destruct (layout_polygon_spec _ _ _ _ _ E1) as (A1 & A2 & A3).
+    destruct (IH _ _ _ _ E2) as (B1 & B2 & B3).
+    split; [lia|]. split.
+    + intros te Hin. apply in_app_or in Hin. destruct Hin as [Hin|Hin].
+      * apply A2 in Hin. lia.
+      * apply B2 in Hin. lia.
+    + intros es_total p H. cbn [inside_mpoly existsb]. f_equal.
+      * apply A3. intros t Ht. rewrite H by lia.
+        rewrite count_below_app, (count_below_notag es2); [lia|].
+        intros te Hte. apply B2 in Hte. lia.
+      * apply B3. intros t Ht. rewrite H by lia.
+        rewrite count_below_app, (count_below_notag es1); [lia|].
+        intros te Hte. apply A2 in Hte. lia.
+Qed.
+
+Lemma layout_region_spec base r es m next :
+  layout_region base r = (es, m, next) ->
+  (base <= next)%nat /\ tags_in es base next /\
+  forall es_total p, agree_on es_total es p base next -> m (par es_total p) = inside_region r p.
+Proof.
+  destruct r as [rs|R]; cbn [layout_region]; intro H.
+  - inversion H as [[He Hm Hn]]. clear H He Hm Hn. split; [lia|]. split.
+    + intros te Hin. apply tag_edges_tag in Hin. lia.
+    + intros es_total p H. cbn [inside_region]. unfold par, inside_eo. f_equal.
+      rewrite H by lia. apply count_below_tag_same.
+  - apply layout_mpoly_spec in H. exact H.
+Qed.
+
+Lemma layout_spec : forall sc base es ms,
+  layout base sc = (es, ms) ->
+  length ms = length sc /\
+  (forall te, In te es -> (base <= fst te)%nat) /\
+  forall es_total p,
+    (forall t, (base <= t)%nat -> count_below es_total p t = count_below es p t) ->
+    forall k m r, nth_error ms k = Some m -> nth_error sc k = Some r ->
+                  m (par es_total p) = inside_region r p.
+Proof.
+  induction sc as [|r0 tl IH]; intros base es ms H.
+  - cbn [layout] in H. inversion H. split; [reflexivity|]. split.
+    + intros te Hin. destruct Hin.
+    + intros es_total p _ k m r Hk. destruct k; discriminate.
+  - cbn [layout] in H.
+    destruct (layout_region base r0) as [[es1 m1] b1] eqn:E1.
+    destruct (layout b1 tl) as [es2 ms2] eqn:E2.
+    inversion H as [[He Hm]]. clear H He Hm.
+    destruct (layout_region_spec _ _ _ _ _ E1) as (A1 & A2 & A3).
+    destruct (IH _ _ _ E2) as (B1 & B2 & B3).
+    split; [cbn [length]; congruence|]. split.
+    + intros te Hin. apply in_app_or in Hin. destruct Hin as [Hin|Hin].
+      * apply A2 in Hin. lia.
+      * apply B2 in Hin. lia.
+    + intros es_total p H k m r Hm Hr. destruct k as [|k].
+      * cbn [nth_error] in Hm, Hr. inversion Hm. inversion Hr. subst m r.
+        apply A3. intros t Ht. rewrite H by lia.
+        rewrite count_below_app, (count_below_notag es2); [lia|].
+        intros te Hte. apply B2 in Hte. lia.
+      * cbn [nth_error] in Hm, Hr. apply (B3 es_total p) with (k := k); auto.
+        intros t Ht. rewrite H by lia.
+        rewrite count_below_app, (count_below_notag es1); [lia|].
+        intros te Hte. apply A2 in Hte. lia.
+Qed.
+
+(** *** extensionality of the layout memberships *)
+Definition ext_m (m : (nat -> bool) -> bool) : Prop :=
+  forall f g, (forall t, f t = g t) -> m f = m g.
+
+Lemma layout_polygon_ext base P es m next : layout_polygon base P = (es, m, next) -> ext_m m.
+Proof.
+  unfold layout_polygon. intro H. inversion H as [[He Hm Hn]]. clear H He Hm Hn.
+  intros f g H. rewrite (H base). f_equal.
+  generalize (hole_tags (S base) (q_holes P)). intro l.
+  induction l as [|th tl IH]; [reflexivity|]. cbn [forallb]. rewrite (H (fst th)), IH. reflexivity.
+Qed.
+
+Lemma layout_mpoly_ext : forall R base es m next, layout_mpoly base R = (es, m, next) -> ext_m m.
+Proof.
+  induction R as [|P tl IH]; intros base es m next H.
+  - cbn [layout_mpoly] in H. inversion H. intros f g _. reflexivity.
+  - cbn [layout_mpoly] in H.
+    destruct (layout_polygon base P) as [[es1 m1] b1] eqn:E1.
+    destruct (layout_mpoly b1 tl) as [[es2 m2] b2] eqn:E2.
+    inversion H as [[He Hm Hn]]. clear H He Hm Hn.
+    intros f g H.
+    rewrite (layout_polygon_ext _ _ _ _ _ E1 f g H), (IH _ _ _ _ E2 f g H). reflexivity.
+Qed.
+
+Lemma layout_region_ext base r es m next : layout_region base r = (es, m, next) -> ext_m m.
+Proof.
+  destruct r as [rs|R]; cbn [layout_region]; intro H.
+  - inversion H. intros f g Hfg. apply Hfg.
+  - eapply layout_mpoly_ext; eassumption.
+Qed.
+
+Lemma layout_ext : forall sc base es ms,
+  layout base sc = (es, ms) -> forall k m, nth_error ms k = Some m -> ext_m m.
+Proof.
+  induction sc as [|r0 tl IH]; intros base es ms H k m Hk.
+  - cbn [layout] in H. inversion H. subst ms. destruct k; discriminate.
+  - cbn [layout] in H.
+    destruct (layout_region base r0) as [[es1 m1] b1] eqn:E1.
+    destruct (layout b1 tl) as [es2 ms2] eqn:E2.
+    inversion H as [[He Hm]]. clear H He. subst ms.
+    destruct k as [|k]; cbn [nth_error] in Hk.
+    + inversion Hk. subst m. eapply layout_region_ext; eassumption.
+    + eapply IH; eassumption.
+Qed.
+
+Lemma eval_law_ext l m m' : (forall k, m k = m' k) -> eval_law l m = eval_law l m'.
+Proof.
+  intro H. induction l as [k| | |a IHa|a IHa b IHb|a IHa b IHb|a IHa b IHb|a IHa b IHb];
+    cbn [eval_law]; try rewrite IHa; try rewrite IHb; auto.
+Qed.
+
+Lemma scene_pred_ext sc l : ext_m (scene_pred sc l).
+Proof.
+  intros f g H. unfold scene_pred. apply eval_law_ext. intro k.
+  destruct (nth_error (snd (layout 0 sc)) k) as [m|] eqn:E; [|reflexivity].
+  exact (layout_ext sc 0 _ _ (surjective_pairing (layout 0 sc)) k m E f g H).
+Qed.
+
+Theorem check_scene_sound (sc : scene) (l : law) :
+  check_scene sc l = true ->
+  forall p, scene_clear sc p -> eval_law l (member sc p) = true.
+Proof.
+  intros H p Hclear. unfold check_scene in H.
+  pose proof (slab_check_sound _ _ _ (scene_pred_ext sc l) H p Hclear) as Hs.
+  unfold scene_pred in Hs. rewrite <- Hs. apply eval_law_ext. intro k.
+  unfold member, scene_edges.
+  destruct (layout 0 sc) as [es ms] eqn:E. cbn [fst snd].
+  destruct (layout_spec _ _ _ _ E) as (Hlen & _ & Hm).
+  destruct (nth_error sc k) as [r|] eqn:Esc; destruct (nth_error ms k) as [m|] eqn:Ems.
+  - symmetry. apply (Hm es p (fun _ _ => eq_refl)) with (k := k); assumption.
+  - exfalso. apply nth_error_None in Ems.
+    assert (Hk : (k < length sc)%nat) by (apply nth_error_Some; congruence). lia.
+  - exfalso. apply nth_error_None in Esc.
+    assert (Hk : (k < length ms)%nat) by (apply nth_error_Some; congruence). lia.
+  - reflexivity.
+Qed.
+
+(** ** (3) the two certificates *)
+Lemma eval_law_op o a b m :
+  eval_law (law_of_op o a b) m = sem_op o (eval_law a m) (eval_law b m).
+Proof. destruct o; reflexivity. Qed.
+
+Definition clear01 (A B : list ring) (R : list qpolygon) (p : qpt) : Prop :=
+  scene_clear (scene01 A B R) p.
+
+Theorem cert01_sound A B o R : cert01 A B o R = true ->
+  forall p, clear01 A B R p -> inside_mpoly R p = sem_op o (inside_eo A p) (inside_eo B p).
+Proof.
+  intros H p Hc. unfold cert01 in H. unfold clear01 in Hc.
+  pose proof (check_scene_sound _ _ H p Hc) as Hs.
+  unfold law01 in Hs. cbn [eval_law] in Hs. apply eqb_prop in Hs.
+  rewrite eval_law_op in Hs. cbn [eval_law] in Hs. exact Hs.
+Qed.
+
+Theorem cert02_reading_sound R : cert02_reading R = true ->
+  forall p, scene_clear (scene02 R) p -> inside_mpoly R p = inside_eo (rings_of R) p.
+Proof.
+  intros H p Hc. unfold cert02_reading in H.
+  pose proof (check_scene_sound _ _ H p Hc) as Hs.
+  unfold law02 in Hs. cbn [eval_law] in Hs. apply eqb_prop in Hs. exact Hs.
+Qed.
+
+(** ** (4) clearness, readably *)
+Lemma clear_edges_of sc p :
+  scene_clear sc p <-> forall e, In e (map snd (scene_edges sc)) -> on_edge e p = false.
+Proof.
+  unfold scene_clear, clear. split.
+  - intros H e He. apply in_map_iff in He. destruct He as [te [<- Hte]]. apply H. exact Hte.
+  - intros H te Hte. apply H. apply in_map. exact Hte.
+Qed.
+
+Lemma layout_mpoly_edges : forall R base,
+  map snd (fst (fst (layout_mpoly base R))) = flat_map ring_edges (rings_of R).
+Proof.
+  induction R as [|P tl IH]; intro base; [reflexivity|].
+  cbn [layout_mpoly].
+  destruct (layout_polygon base P) as [[es1 m1] b1] eqn:E1.
+  specialize (IH b1). destruct (layout_mpoly b1 tl) as [[es2 m2] b2].
+  cbn [fst] in *. unfold tedge in *. rewrite map_app, IH.
+  unfold layout_polygon in E1. inversion E1 as [[He Hm Hn]]. clear E1 He Hm Hn.
+  fold (hole_edges (hole_tags (S base) (q_holes P))).
+  change (rings_of (P :: tl)) with ((q_ext P :: q_holes P) ++ rings_of tl).
+  rewrite flat_map_app. f_equal. cbn [flat_map].
+  rewrite map_app, map_snd_tag_edges, hole_edges_snd. reflexivity.
+Qed.
+
+Lemma scene01_edges A B R :
+  map snd (scene_edges (scene01 A B R))
+  = flat_map ring_edges A ++ flat_map ring_edges B ++ flat_map ring_edges (rings_of R).
+Proof.
+  unfold scene_edges, scene01. cbn [layout layout_region].
+  pose proof (layout_mpoly_edges R 2) as H.
+  destruct (layout_mpoly 2 R) as [[es3 m3] b3]. cbn [fst] in *. unfold tedge in *.
+  rewrite !map_app, !map_snd_tag_edges, H. cbn [map]. rewrite app_nil_r. reflexivity.
+Qed.
+
+Lemma scene02_edges R :
+  map snd (scene_edges (scene02 R))
+  = flat_map ring_edges (rings_of R) ++ flat_map ring_edges (rings_of R).
+Proof.
+  unfold scene_edges, scene02. cbn [layout layout_region].
+  pose proof (layout_mpoly_edges R 0) as H.
+  destruct (layout_mpoly 0 R) as [[es1 m1] b1]. cbn [fst] in *. unfold tedge in *.
+  rewrite !map_app, !map_snd_tag_edges, H. cbn [map]. rewrite app_nil_r. reflexivity.
+Qed.
+
+(** clearness of the C01 scene: [p] lies on no edge of [A], [B] or [R] *)
+Lemma clear01_iff A B R p :
+  clear01 A B R p <->
+  forall e, In e (flat_map ring_edges A ++ flat_map ring_edges B ++ flat_map ring_edges (rings_of R)) ->
+            on_edge e p = false.
+Proof.
+  unfold clear01. rewrite clear_edges_of, scene01_edges. reflexivity.
+Qed.
+
 Print Assumptions slab_check_sound.
+Print Assumptions check_scene_sound.
+Print Assumptions cert01_sound.
+Print Assumptions cert02_reading_sound.
